@@ -2,6 +2,7 @@ SPECIFICATION DSpec
 CONSTANTS Names = {"f1", "f2", "f3", "f4", "tmp", "meta"}
           MaxVer = 4
           Writer = "atomic"
+          CacheSize = 3
           Reader = "newest"
 INVARIANTS ReadIsValidated
 CHECK_DEADLOCK FALSE
